@@ -153,3 +153,19 @@ func (h *VerifTableHandle) BlockBaseKeys() [][]byte {
 	}
 	return out
 }
+
+// Prefetch warms the block cache with the block that would hold key, the way
+// LSM.Prefetch does for hot keys (table.prefetchBlockForKey).
+func (h *VerifTableHandle) Prefetch(key []byte) (ok bool) {
+	_ = verifGuard("table prefetch", func() error {
+		ok = h.t.prefetchBlockForKey(key)
+		return nil
+	})
+	return ok
+}
+
+// NewPrefetchIterator returns a forward table iterator whose prefetch workers
+// run n blocks ahead (Options.PrefetchBlocks), as scans and compactions use it.
+func (h *VerifTableHandle) NewPrefetchIterator(n int) utils.Iterator {
+	return h.t.NewIterator(&utils.Options{IsAsc: true, PrefetchBlocks: n})
+}
